@@ -53,7 +53,7 @@ stats = {"gen_cases": 0, "gen_miss": 0, "wf_ok": 0, "wf_ok_roundtrip": 0, "print
          "corpus_model_agree": 0, "float_fmt": 0, "float_parse": 0, "opcodes_seen": {}, "item_kinds": {},
          "operand_kinds": {}, "error_kinds": {}, "corpus_nonfinite_float": 0, "temp_counter_checked": 0,
          "temp_counter_nonzero": 0, "temp_counter_agree": 0, "api_lc_clash": 0, "reread_loaded_linked": 0,
-         "lc_named_cases": 0}
+         "lc_named_cases": 0, "reg_name_collisions": {}}
 distinct = set()
 
 
@@ -525,6 +525,10 @@ def gen_cases(rng, table):
     n_probe = 6 if QUICK else 60
     def add(mods, probe, runs=(), scramble=False):
         nl = G.renumber(mods, rng, scramble)
+        if probe is None:
+            # registers spelled like the labels / items / prototypes / types / instructions / keywords of the text
+            for (fam, k) in G.collide(mods, rng).items():
+                bump(stats["reg_name_collisions"], fam, k)
         lines = G.describe(mods, nl, runs)
         cases.append(("g%d" % len(cases), lines, mods, probe))
     for i in range(n_plain):
@@ -639,7 +643,7 @@ def run_generated(rng, table):
     ck.stage("generated", cases=len(cases), wf_ok=stats["wf_ok"], roundtrip=stats["wf_ok_roundtrip"],
              gen_miss=stats["gen_miss"], probes=stats["probe"], lc_named_cases=stats["lc_named_cases"],
              reread_loaded_linked_run=stats["reread_loaded_linked"], api_lc_clash=stats["api_lc_clash"],
-             temp_counter_nonzero=stats["temp_counter_nonzero"])
+             temp_counter_nonzero=stats["temp_counter_nonzero"], reg_name_collisions=stats["reg_name_collisions"])
     return cases, impl
 
 
